@@ -60,6 +60,13 @@ open_('F07n', 'C08', 'nb_tasks_late', 'C08/ind:1/nb_tasks_late',
       'a resource indicator only sees the busy intervals that exist when it is created: a task assigned to the worker afterwards '
       'is not counted [F07]')
 
+open_('F13', 'C09', 'level_after_change_optional', 'C09/buf:1/level_after_change_optional',
+      [('ONewProblem', Some(Z(10))), T(1, ('KFixed', Z(2)), opt=True), T(2, ('KFixed', Z(2))),
+       ('ONewBuffer', N(1), False, Some(Z(5)), None, None, None),
+       ('ONewConstraint', N(1), False, ('CUnload', N(1), N(1), Z(3))), ('ONewConstraint', N(2), False, ('CLoad', N(2), N(1), Z(1)))],
+      'an optional task that is not scheduled still loads / unloads its buffers (at its point in the past -task_number): '
+      'levels [5, 2, 3] although the unloading task is not scheduled [F13]', pin={'T1_scheduled': False})
+
 F.append(dict(id='F22', property='C13', status='open', clause_kind='reinit-multiobjective',
               witness=dict(case='corpus/C13/F22.json'),
               text="initialize() a second time (or a second SchedulingSolver) on a problem with two objectives raises ValueError: build_equivalent_weighted_objective registers 'EquivalentIndicator' / 'MinimizeEquivalentObjective' in the problem itself [F22]"))
